@@ -5,8 +5,8 @@ use crate::choices::Ch;
 use crate::common::*;
 use crate::des::*;
 use crate::server::*;
-use coap_lite::block_handler::BlockValue;
-use coap_lite::{CoapOption, MessageClass, MessageType, Packet};
+use crate::refparse::{self, Fields};
+use coap_lite::MessageType;
 use std::collections::BTreeMap;
 
 // ---------------------------------------------------------------------------
@@ -113,7 +113,7 @@ pub struct TransferResult {
 }
 
 // ---------------------------------------------------------------------------
-// message building (through the real Packet API)
+// message building (reference encoder)
 
 pub fn build_request(
     method: u8,
@@ -126,30 +126,38 @@ pub fn build_request(
     b2: Option<(u16, bool, u8)>,
     payload: &[u8],
 ) -> Vec<u8> {
-    let mut p = Packet::new();
-    p.header.set_version(1);
-    p.header.set_type(mtype);
-    p.header.code = MessageClass::from(method);
-    p.header.message_id = mid;
-    p.set_token(token.to_vec());
+    // client stubs serialise with the reference encoder, not with the codec
+    // of the crate under test: a codec defect must not cancel out between
+    // the stub and the server
+    let mut opts: Vec<(u32, Vec<u8>)> = Vec::new();
     for seg in path {
-        p.add_option(CoapOption::UriPath, seg.clone());
+        opts.push((11, seg.clone()));
     }
     for (n, v) in extra {
-        p.add_option(CoapOption::from(*n), v.clone());
+        opts.push((*n as u32, v.clone()));
     }
     if let Some((n, m, s)) = b1 {
-        p.add_option_as(CoapOption::Block1, BlockValue { num: n, more: m, size_exponent: s });
+        opts.push((27, refparse::block_encode(n as u32, m, s)));
     }
     if let Some((n, m, s)) = b2 {
-        p.add_option_as(CoapOption::Block2, BlockValue { num: n, more: m, size_exponent: s });
+        opts.push((23, refparse::block_encode(n as u32, m, s)));
     }
-    p.payload = payload.to_vec();
-    p.to_bytes_unlimited().expect("request encodes")
+    let t = match mtype {
+        MessageType::Confirmable => 0,
+        MessageType::NonConfirmable => 1,
+        MessageType::Acknowledgement => 2,
+        MessageType::Reset => 3,
+    };
+    refparse::encode(1, t, method, mid, token, &opts, payload)
 }
 
-fn block_opt(p: &Packet, o: CoapOption) -> Option<(u16, bool, u8)> {
-    p.get_first_option_as::<BlockValue>(o).and_then(|x| x.ok()).map(|b| (b.num, b.more, b.size_exponent))
+const BLOCK1: u32 = 27;
+const BLOCK2: u32 = 23;
+
+/// Block option of a reply, as the (reference) client decodes it.  Block
+/// numbers beyond 16 bits are clamped: no transfer here comes near them.
+fn block_opt(p: &Fields, o: u32) -> Option<(u16, bool, u8)> {
+    p.block(o).map(|(n, m, s)| (n.min(u16::MAX as u32) as u16, m, s))
 }
 
 // ---------------------------------------------------------------------------
@@ -443,15 +451,15 @@ impl Lane {
 
     /// Does this reply answer the outstanding request, by the RFC 7252 rules
     /// (ACK: message id and token; separate/NON: token)?
-    pub fn matches(&self, p: &Packet) -> bool {
+    pub fn matches(&self, p: &Fields) -> bool {
         match &self.out {
             None => false,
             Some(o) => {
-                if p.get_token() != &o.token[..] {
+                if p.token != o.token {
                     return false;
                 }
-                match p.header.get_type() {
-                    MessageType::Acknowledgement | MessageType::Reset => p.header.message_id == o.mid,
+                match p.mtype() {
+                    2 | 3 => p.mid == o.mid,
                     _ => true,
                 }
             }
@@ -510,11 +518,11 @@ impl Lane {
     }
 
     /// A reply that `matches` the outstanding request.
-    pub fn on_reply(&mut self, now: u64, p: &Packet, raw: &[u8], ids: &mut ClientIds) -> Vec<Out> {
+    pub fn on_reply(&mut self, now: u64, p: &Fields, raw: &[u8], ids: &mut ClientIds) -> Vec<Out> {
         self.out = None;
         self.timer_gen += 1;
         self.exch += 1;
-        let code = u8::from(p.header.code);
+        let code = p.code;
         {
             let c = self.cur();
             c.replies.push(raw.to_vec());
@@ -533,7 +541,7 @@ impl Lane {
                     }
                     self.up_off = end;
                     if let TKind::Upload { adapt: true, .. } = t.kind {
-                        if let Some((_, _, s)) = block_opt(p, CoapOption::Block1) {
+                        if let Some((_, _, s)) = block_opt(p, BLOCK1) {
                             if s < self.up_size_szx {
                                 self.up_size_szx = s;
                             }
@@ -547,7 +555,7 @@ impl Lane {
             Phase::Plain => {
                 if code == 0x8D {
                     // 4.13 with a Block1 size hint: retry block-wise
-                    if let Some((_, _, s)) = block_opt(p, CoapOption::Block1) {
+                    if let Some((_, _, s)) = block_opt(p, BLOCK1) {
                         if s <= 6 && !self.up_body.is_empty() {
                             self.phase = Phase::Upload;
                             self.up_size_szx = s;
@@ -570,10 +578,10 @@ impl Lane {
         }
     }
 
-    fn after_final_reply(&mut self, p: &Packet, ids: &mut ClientIds) -> Vec<Out> {
+    fn after_final_reply(&mut self, p: &Fields, ids: &mut ClientIds) -> Vec<Out> {
         // the reply to a complete request may itself be block-wise
-        if let Some((_n, more, _s)) = block_opt(p, CoapOption::Block2) {
-            if more && u8::from(p.header.code) < 0x80 {
+        if let Some((_n, more, _s)) = block_opt(p, BLOCK2) {
+            if more && p.code < 0x80 {
                 self.phase = Phase::Download;
                 self.dl_szx = None;
                 self.dl_blocks = 0;
@@ -585,14 +593,14 @@ impl Lane {
         self.maybe_probe(ids)
     }
 
-    fn on_download_reply(&mut self, p: &Packet, ids: &mut ClientIds) -> Vec<Out> {
-        let code = u8::from(p.header.code);
+    fn on_download_reply(&mut self, p: &Fields, ids: &mut ClientIds) -> Vec<Out> {
+        let code = p.code;
         if code >= 0x80 {
             return self.finish(TStatus::Failed("error-reply"));
         }
         let t = self.tspec().clone();
         let pl = p.payload.clone();
-        match block_opt(p, CoapOption::Block2) {
+        match block_opt(p, BLOCK2) {
             None => {
                 self.cur().body.extend_from_slice(&pl);
                 self.maybe_probe(ids)
@@ -776,23 +784,11 @@ pub fn run_world(spec: &WorldSpec, ch: &mut Ch, verbose: bool) -> WorldResult {
             }
             Ev::ToClient { to, bytes, for_arrival, corrupted } => {
                 trace.ev(3, to as u64, &bytes);
-                // the client parses the reply with the real parser
-                let parsed = if spec.server.check_wire {
-                    match check_parse(&bytes, &mut stats, &mut violations, &mut shapes) {
-                        Some(Ok(p)) => Some(p),
-                        _ => None,
-                    }
-                } else {
-                    match guard(|| Packet::from_bytes(&bytes)) {
-                        Ok(Ok(p)) => Some(p),
-                        Ok(Err(_)) => None,
-                        Err(msg) => {
-                            violations.push(Violation::new("C03", "panic", format!("from_bytes panicked on a reply: {}", msg)).with_sig(&format!("panic@{}", panic_site(&msg))));
-                            None
-                        }
-                    }
-                };
-                let Some(p) = parsed else {
+                // the real parser sees the reply too (C02 / C03 oracle at every
+                // parse point); the client stub itself decodes with the
+                // reference parser
+                let _ = check_parse(&bytes, &mut stats, &mut violations, &mut shapes);
+                let Some(p) = refparse::accept(&bytes) else {
                     stats.hit("client.reply-unparseable");
                     continue;
                 };
@@ -814,7 +810,7 @@ pub fn run_world(spec: &WorldSpec, ch: &mut Ch, verbose: bool) -> WorldResult {
                         // by the protocol rule is the one it was produced for
                         let o = lanes[gi].out.clone().unwrap();
                         let truth = server.log[for_arrival].tag;
-                        let is_ack = matches!(p.header.get_type(), MessageType::Acknowledgement);
+                        let is_ack = p.mtype() == 2;
                         let same = truth.client == o.tag.client && truth.lane == o.tag.lane && truth.transfer == o.tag.transfer && truth.exch == o.tag.exch;
                         if !same || corrupted {
                             // e.g. an empty token on a NON reply cannot tell
@@ -836,7 +832,7 @@ pub fn run_world(spec: &WorldSpec, ch: &mut Ch, verbose: bool) -> WorldResult {
                             }
                         }
                         let (ci, li) = (lanes[gi].ci, lanes[gi].li);
-                        trace.line(|| format!("t={} c{} l{}: accepted {} (outstanding mid={} type={:?})", now, ci, li, describe_reply(&bytes), o.mid, p.header.get_type()));
+                        trace.line(|| format!("t={} c{} l{}: accepted {} (outstanding mid={} type={})", now, ci, li, describe_reply(&bytes), o.mid, p.mtype()));
                         let outs = lanes[gi].on_reply(now, &p, &bytes, &mut ids[to]);
                         apply_outs(outs, ci, li, spec, &mut q, ch, &mut stats);
                     }
